@@ -20,6 +20,7 @@ N(k, mode, kids, ch, name) == [k |-> k, mode |-> mode, kids |-> kids, ch |-> ch,
 Quote(c) == IF c = 97 THEN "was expecting \"a\"" ELSE IF c = 98 THEN "was expecting \"b\""
             ELSE IF c = 120 THEN "was expecting \"x\"" ELSE IF c = 121 THEN "was expecting \"y\""
             ELSE IF c = 99 THEN "was expecting \"c\"" ELSE IF c = 100 THEN "was expecting \"d\""
+            ELSE IF c = 32 THEN "was expecting \" \""
             ELSE IF c = 10 THEN "was expecting \"\\n\"" ELSE "was expecting \"?\""
 Tm(c) == N("term", "", <<>>, c, Quote(c))
 Eps == N("empty", "", <<>>, 0, "")
@@ -161,6 +162,17 @@ LineBodies == {
   SeqE("sepby1", <<AnyE(<<A, SeqE("of", <<A, Bt>>)>>), NLt>>),
   SeqE("of", <<Opt(SeqE("of", <<NLt, NLt, A>>)), NLt, Bt>>)
 }
+
+\* one memoised result used both right-trimmed and untrimmed at the same position (C07 / C10):
+\* nonterminal 2 = M -> a | a a ; P -> RTrim(M) b | M " " b   (both orders, each trim mode)
+SPt == Tm(32)
+TrimShare ==
+  LET m == AnyE(<<A, SeqE("of", <<A, A>>)>>)
+      t(mode) == SeqE("of", <<RTrim(Ref(2), mode), Bt>>)
+      u == SeqE("of", <<Ref(2), SPt, Bt>>)
+      v == SeqE("of", <<Ref(2), Bt>>)
+  IN {<<AnyE(<<t(mode), u>>), m>> : mode \in {"spaces", "nl"}} \cup {<<AnyE(<<u, t(mode)>>), m>> : mode \in {"spaces", "nl"}} \cup
+     {<<AnyE(<<v, t("none")>>), m>>, <<AnyE(<<SeqE("of", <<LTrim(Ref(2), "spaces"), Bt>>), SeqE("of", <<SPt, Ref(2), Bt>>)>>), m>>}
 
 \* two nonterminals: mutual and indirect left recursion
 F3Pairs ==
